@@ -169,6 +169,12 @@ def run(ctx, build):
     for si in range(n_s):
         R = rng.randint(1, 9)
         names = [rng.choice(vocab[:rng.randint(1, len(vocab))]) for _ in range(R)]
+        # designed, seed-independent: more ranks than the small-array fast paths of numpy's sorts cover, placed block-wise and
+        # round-robin on 2 / 3 names
+        big = [(18, 2, 'block'), (18, 2, 'robin'), (24, 3, 'block'), (40, 3, 'robin'), (33, 2, 'block'), (64, 4, 'robin'), (130, 3, 'block')]
+        if si < len(big):
+            R, nn, how = big[si]
+            names = [vocab[(q * nn // R) if how == 'block' else (q % nn)] for q in range(R)]
         ids = {nm: i for i, nm in enumerate(sorted(set(names)))}
         sys.modules['mpi4py'] = fake_mpi(names, rng.randrange(R))
         try:
